@@ -199,14 +199,23 @@ impl<'a> ProgGen<'a> {
             }
         }
         // names introduced by type-level wrappers are reserved before the wrapped type is generated
-        let wrap = if self.cfg.type_level && self.r.chance(1, 7) { [1, 2, 2, 3][self.r.usize(4)] } else { 0 };
+        let wrap = if self.cfg.type_level && self.r.chance(1, 6) { [1, 2, 2, 3, 4][self.r.usize(if self.cfg.recursion { 5 } else { 4 })] } else { 0 };
         let wrap_name = match wrap {
             1 => self.fresh_name("t"),
             3 => self.fresh_name("ty"),
             _ => String::new(),
         };
+        let mark = self.ctx.len();
         if wrap == 3 {
             self.ctx.push(Entry { name: wrap_name.clone(), ty: GT::Type, alias_of: None, usable: false, recursive_fn: false });
+        }
+        let mut rec_names = vec![];
+        if wrap == 4 {
+            for hint in ["trec", "tn", "tk"] {
+                let n = self.fresh_name(hint);
+                self.ctx.push(Entry { name: n.clone(), ty: GT::Int, alias_of: None, usable: false, recursive_fn: false });
+                rec_names.push(n);
+            }
         }
         let base = match t {
             GT::Int => H::Int,
@@ -240,9 +249,7 @@ impl<'a> ProgGen<'a> {
                 H::Pi(a.clone(), false, hb(H::Type), hb(bh))
             }
         };
-        if wrap == 3 {
-            self.ctx.pop();
-        }
+        self.ctx.truncate(mark);
         match wrap {
             1 => {
                 self.feature("type-level-redex");
@@ -273,6 +280,29 @@ impl<'a> ProgGen<'a> {
             3 => {
                 self.feature("type-level-definition");
                 H::Paren(hb(H::Let(wrap_name.clone(), Some(hb(H::Type)), hb(base), hb(H::Var(wrap_name)))))
+            }
+            4 => {
+                // a group inside the type: a recursive function that is not the last definition,
+                // then a constant; the type is chosen by comparing a call with its closed form
+                //   trec n = if n <= 0 then c else a + trec (n - 1)   ==>   trec m = c + a * m
+                self.feature("type-level-recursive-group");
+                let (trec, tn, tk) = (rec_names[0].clone(), rec_names[1].clone(), rec_names[2].clone());
+                let (c, a, m) = (self.r.below(5) as i64, 1 + self.r.below(3) as i64, self.r.below(4) as i64);
+                let other = if self.r.chance(1, 2) { H::Bool } else { H::Int };
+                let var = |x: &String| H::Var(x.clone());
+                let step = H::Bin(Op::Add, hb(H::lit(a)), hb(H::App(hb(var(&trec)), hb(H::Bin(Op::Sub, hb(var(&tn)), hb(H::lit(1)))))));
+                let fun = H::Lam(tn.clone(), false, Some(hb(H::Int)), hb(H::If(hb(H::Bin(Op::Le, hb(var(&tn)), hb(H::lit(0)))), hb(H::lit(c)), hb(step))));
+                let fty = H::Pi("_".into(), false, hb(H::Int), hb(H::Int));
+                let call = H::App(hb(var(&trec)), hb(H::lit(m)));
+                let (cond, truth) = match self.r.below(3) {
+                    0 => (H::Bin(Op::Eq, hb(call), hb(var(&tk))), true),
+                    1 => (H::Bin(Op::Lt, hb(call), hb(var(&tk))), false),
+                    _ => (H::Bin(Op::Ge, hb(var(&tk)), hb(call)), true),
+                };
+                let body = if truth { H::If(hb(cond), hb(base), hb(other)) } else { H::If(hb(cond), hb(other), hb(base)) };
+                let fann = if self.cfg.mode == Mode::Inferred && self.r.chance(1, 3) { None } else { Some(hb(fty)) };
+                let kann = if self.cfg.mode == Mode::Inferred && self.r.chance(1, 3) { None } else { Some(hb(H::Int)) };
+                H::Paren(hb(H::Let(trec, fann, hb(fun), hb(H::Let(tk, kann, hb(H::lit(c + a * m)), hb(body))))))
             }
             _ => base,
         }
